@@ -3,6 +3,9 @@ representation encodes the same matrix; rectangular neighbour lists are the 4-co
 import numpy as np
 from pyvc.contract import contract, corollary, macro, spec_fn, CONTRACTS
 from pyvc import gens
+from pyvc.ext import c06 as _c06_ext
+
+_c06_ext.install()      # after every extension module is loaded: keep this module's numpy handlers in front
 
 MU = "autoarray.inversion.pixelization.mappers.mapper_util:"
 ME = "autoarray.inversion.pixelization.mesh.mesh_util:"
@@ -125,7 +128,7 @@ contract(
     types={"pix_indexes_for_sub_slim_index": "int[2]", "pix_size_for_sub_slim_index": "int[1]",
            "pix_weights_for_sub_slim_index": "real[2]", "pixels": "int", "total_mask_pixels": "int",
            "slim_index_for_sub_slim_index": "int[1]", "sub_fraction": "real[1]"},
-    returns="real[2]", let=_MM_LET, requires=_MM_REQ, timeout_ms=4000,
+    returns="real[2]", let=_MM_LET, requires=_MM_REQ,
     ensures=["result.shape[0] == N", "result.shape[1] == P",
              "forall(0, N, lambda i: forall(0, P, lambda p: result[i, p] == " + _MM.format(n="S") + "))",
              # every row sums to the weight deposited in it ...
@@ -217,7 +220,7 @@ def _rows(region, lo, hi=None):
 
 def _helper(name, region, lo, loops):
     contract(ME + name, props=["C06"], types=_RT, returns="(real[2],real[1])", let=_RL, requires=_RREQ,
-             modifies=["neighbors", "neighbors_sizes"], ensures=_rows(region, lo) + _RRES, loops=loops, timeout_ms=6000,
+             modifies=["neighbors", "neighbors_sizes"], ensures=_rows(region, lo) + _RRES, loops=loops,
              sentence={"c06_nbk": "the rows of these cells hold their 4-connected neighbours in ascending order; neighbors_sizes is the degree; all other rows are untouched"})
 
 
@@ -248,7 +251,7 @@ _helper("rectangular_central_neighbors", _CEN, 4,
 
 contract(
     ME + "rectangular_neighbors_from", props=["C06", "C07"], types={"shape_native": "(int,int)"}, returns="(real[2],real[1])",
-    let={"H": "shape_native[0]", "W": "shape_native[1]"}, requires=["H >= 3", "W >= 3"], timeout_ms=6000,
+    let={"H": "shape_native[0]", "W": "shape_native[1]"}, requires=["H >= 3", "W >= 3"],
     ensures=["result[0].shape[0] == H * W", "result[0].shape[1] == 4", "result[1].shape[0] == H * W",
              # row r*W+c holds the 4-connected neighbours of cell (r,c) in ascending order followed by -1; sizes is the degree
              "forall(0, H, lambda r: forall(0, W, lambda c: forall(0, 4, lambda k: result[0][" + _FL("r", "c") + ", k] == c06_nbk(H, W, r, c, k))))",
@@ -415,11 +418,16 @@ spec_fn(
     doc="offset of the first sub-pixel of an image pixel in the sub-pixel ordering (C06 / C09)",
 )
 
-# partial matrix entry (ip, p): sub-fraction times the weight of source pixel p summed over the first m sub-pixels of image
-# pixel ip and the first k interpolation entries of the next one.  m = sub_size[ip]^2, k = 0 is entry (ip, p) of the matrix.
+# entry (ip, p) of the matrix: sum over the sub_size[ip]^2 sub-pixels of image pixel ip, over each sub-pixel's interpolation
+# entries c, of [idx == p] * (1/sub_size[ip]^2) * weight.  c06_mf is the partial entry after m complete sub-pixels and the first
+# k interpolation entries of the next sub-pixel, c06_off(ss, ip) + m (the loops' progress).
+macro("c06_wtf", ["idx", "w", "sz", "ss", "ip", "s", "p"],
+      "sumto(sz[s], lambda c: ((1 / (ss[ip] * ss[ip])) * w[s, c] if idx[s, c] == p else 0))")
+macro("c06_me", ["idx", "w", "sz", "ss", "ip", "p"],
+      "sumto(ss[ip] * ss[ip], lambda t: c06_wtf(idx, w, sz, ss, ip, c06_off(ss, ip) + t, p))")
 macro("c06_mf", ["idx", "w", "sz", "ss", "ip", "p", "m", "k"],
-      "(1 / (ss[ip] * ss[ip])) * (sumto(m, lambda t: c06_wt(idx, w, sz, c06_off(ss, ip) + t, p))"
-      " + sumto(k, lambda j: (w[c06_off(ss, ip) + m, j] if idx[c06_off(ss, ip) + m, j] == p else 0)))")
+      "sumto(m, lambda t: c06_wtf(idx, w, sz, ss, ip, c06_off(ss, ip) + t, p))"
+      " + sumto(k, lambda c: ((1 / (ss[ip] * ss[ip])) * w[c06_off(ss, ip) + m, c] if idx[c06_off(ss, ip) + m, c] == p else 0))")
 
 _UQ_LET = {"DP": "data_pixels", "PP": "pix_pixels", "idx": "pix_indexes_for_sub_slim_index", "w": "pix_weights_for_sub_slim_index",
            "sz": "pix_sizes_for_sub_slim_index", "ss": "sub_size", "T": "pix_indexes_for_sub_slim_index.shape[0]",
@@ -431,28 +439,28 @@ _UQ_REQ = ["DP >= 1", "PP >= 0", "ss.shape[0] == DP", "sz.shape[0] == T", "w.sha
            "forall(0, T, lambda t: forall(0, sz[t], lambda k: 0 <= idx[t, k] and idx[t, k] < PP))"]
 
 
-def _uq_row(U, Wt, n, m, k, ip="ip"):
-    """columns c < n of row ip: integer source-pixel indices in range, pairwise distinct, carrying the (partial) matrix entry"""
-    mf = lambda p: "c06_mf(idx, w, sz, ss, %s, %s, %s, %s)" % (ip, p, m, k)
+def _uq_row(U, Wt, n, entry, ip="ip"):
+    """columns c < n of row ip: integer source-pixel indices in range carrying the (partial) matrix entry; the rest is empty"""
     u = "%s[%s, c]" % (U, ip)
     return ["forall(0, {n}, lambda c: {u} == toreal(toint({u})) and 0 <= toint({u}) and toint({u}) < PP)".format(n=n, u=u),
-            "forall(0, {n}, lambda c: {Wt}[{ip}, c] == {mf})".format(n=n, Wt=Wt, ip=ip, mf=mf("toint(%s)" % u)),
+            # (p ranges over source pixels so that the sums are functions of the scalar p, not of the array U)
+            "forall(0, {n}, lambda c: forall(0, PP, lambda p: implies({u} == p, {Wt}[{ip}, c] == {e})))".format(n=n, u=u, Wt=Wt, ip=ip, e=entry("p")),
             "forall({n}, {U}.shape[1], lambda c: {u} == -1 and {Wt}[{ip}, c] == 0)".format(n=n, U=U, u=u, Wt=Wt, ip=ip)]
+
+
+_ME = lambda p: "c06_me(idx, w, sz, ss, ip, %s)" % p
 
 
 def _uq_done(U, Wt, L, hi):
     """rows ip < hi are finished: the statement's sparse encoding of the matrix"""
     n = "toint(%s[ip])" % L
-    mm = "ss[ip] * ss[ip]"
-    body = [x[len("forall("):] for x in []]
     out = ["forall(0, {hi}, lambda ip: {L}[ip] == toreal({n}) and 0 <= {n} and {n} <= {U}.shape[1])".format(hi=hi, L=L, n=n, U=U)]
-    for cl in _uq_row(U, Wt, n, mm, "0"):
+    for cl in _uq_row(U, Wt, n, _ME):
         out.append("forall(0, %s, lambda ip: %s)" % (hi, cl))
     # distinct columns
     out.append("forall(0, {hi}, lambda ip: forall(0, {n}, lambda c1: forall(0, {n}, lambda c2: implies(c1 != c2, {U}[ip, c1] != {U}[ip, c2]))))".format(hi=hi, n=n, U=U))
     # a source pixel that is not listed has a zero matrix entry
-    out.append("forall(0, {hi}, lambda ip: forall(0, PP, lambda p: implies(forall(0, {n}, lambda c: {U}[ip, c] != p),"
-               " c06_mf(idx, w, sz, ss, ip, p, {mm}, 0) == 0)))".format(hi=hi, n=n, U=U, mm=mm))
+    out.append("forall(0, {hi}, lambda ip: forall(0, PP, lambda p: implies(forall(0, {n}, lambda c: {U}[ip, c] != p), {me} == 0)))".format(hi=hi, n=n, U=U, me=_ME("p")))
     return out
 
 
@@ -465,7 +473,7 @@ def _uq_cur(m, k):
     mf = lambda p: "c06_mf(idx, w, sz, ss, ip, %s, %s, %s)" % (p, m, k)
     pc = "pix_check[p]"
     return (["0 <= pix_size", "pix_size <= (%s) * max_pix_mappings + %s" % (m, k)]
-            + _uq_row("data_to_pix_unique", "data_weights", "pix_size", m, k)
+            + _uq_row("data_to_pix_unique", "data_weights", "pix_size", mf)
             + ["forall(0, pix_size, lambda c: pix_check[toint(data_to_pix_unique[ip, c])] == c)",
                "forall(0, PP, lambda p: {pc} == -1 or ({pc} == toreal(toint({pc})) and 0 <= toint({pc}) and toint({pc}) < pix_size"
                " and data_to_pix_unique[ip, toint({pc})] == p))".format(pc=pc),
@@ -478,13 +486,188 @@ contract(
     _UQ_K, props=["C06"],
     types={"data_pixels": "int", "pix_indexes_for_sub_slim_index": "int[2]", "pix_sizes_for_sub_slim_index": "int[1]",
            "pix_weights_for_sub_slim_index": "real[2]", "pix_pixels": "int", "sub_size": "int[1]"},
-    returns="(real[2],real[2],real[1])", let=_UQ_LET, requires=_UQ_REQ, timeout_ms=6000,
+    returns="(real[2],real[2],real[1])", let=_UQ_LET, requires=_UQ_REQ,
     ensures=["result[0].shape[0] == DP", "result[1].shape[0] == DP", "result[1].shape[1] == result[0].shape[1]", "result[2].shape[0] == DP"]
             + _uq_done("result[0]", "result[1]", "result[2]", "DP"),
     loops={
-        0: {"inv": ["ip_sub_start == c06_off(ss, ip)"] + _uq_done("data_to_pix_unique", "data_weights", "pix_lengths", "ip") + _uq_untouched("ip")},
-        1: {"inv": _uq_done("data_to_pix_unique", "data_weights", "pix_lengths", "ip") + _uq_untouched("ip + 1") + _uq_cur(_M1, "0")},
-        2: {"inv": _uq_done("data_to_pix_unique", "data_weights", "pix_lengths", "ip") + _uq_untouched("ip + 1") + _uq_cur(_M1, "pix_interp_index")},
+        0: {"inv": ["ip_sub_start == c06_off(ss, ip)"] + _uq_done("data_to_pix_unique", "data_weights", "pix_lengths", "ip") + _uq_untouched("ip"),
+            "assert_at": {0: ["sub_fraction[ip] == 1 / (ss[ip] * ss[ip])"]}},
+        1: {"inv": _uq_done("data_to_pix_unique", "data_weights", "pix_lengths", "ip") + _uq_untouched("ip + 1") + _uq_cur(_M1, "0"),
+            "assert_at": {0: ["ip_sub_end == c06_off(ss, ip + 1)", "c06_off(ss, ip + 1) <= T", "0 <= ip_sub and ip_sub < T",
+                              "ip_sub == c06_off(ss, ip) + (" + _M1 + ")"],
+                          # hand-over: all entries of sub-pixel ip_sub are in, i.e. one more complete sub-pixel
+                          1: ["forall(0, PP, lambda p: c06_mf(idx, w, sz, ss, ip, p, " + _M1 + " + 1, 0) == c06_mf(idx, w, sz, ss, ip, p, " + _M1 + ", sz[ip_sub]))"]}},
+        2: {"inv": _uq_done("data_to_pix_unique", "data_weights", "pix_lengths", "ip") + _uq_untouched("ip + 1") + _uq_cur(_M1, "pix_interp_index"),
+            # counting argument for the column bound: at most max_pix_mappings entries per sub-pixel, sub_size^2 sub-pixels
+            "assert_at": {0: [_M1 + " + 1 <= ss[ip] * ss[ip]", "pix_interp_index + 1 <= max_pix_mappings",
+                              "(" + _M1 + " + 1) * max_pix_mappings <= ss[ip] * ss[ip] * max_pix_mappings",
+                              "ss[ip] * ss[ip] * max_pix_mappings <= data_to_pix_unique.shape[1]",
+                              "pix_size < data_to_pix_unique.shape[1] and data_weights.shape[1] == data_to_pix_unique.shape[1]"],
+                          # the entry being processed names source pixel `pix`: only that pixel's partial matrix entry grows
+                          2: ["0 <= pix and pix < PP",
+                              "pix == idx[c06_off(ss, ip) + (" + _M1 + "), pix_interp_index] and pixel_weight == w[c06_off(ss, ip) + (" + _M1 + "), pix_interp_index]",
+                              "forall(0, PP, lambda p: c06_mf(idx, w, sz, ss, ip, p, " + _M1 + ", pix_interp_index + 1) =="
+                              " c06_mf(idx, w, sz, ss, ip, p, " + _M1 + ", pix_interp_index) + (sub_fraction[ip] * pixel_weight if p == pix else 0))",
+                              "implies(pix_check[pix] > -0.5, 0 <= toint(pix_check[pix]) and toint(pix_check[pix]) < pix_size"
+                              " and data_to_pix_unique[ip, toint(pix_check[pix])] == pix)",
+                              "implies(pix_check[pix] <= -0.5, pix_check[pix] == -1)",
+                              "forall(0, pix_size, lambda c: implies(pix_check[pix] <= -0.5 or c != toint(pix_check[pix]), data_to_pix_unique[ip, c] != pix))"]}},
     },
-    sentence={"c06_mf": "the sparse unique-mapping representation encodes exactly the same matrix: distinct columns per row, summed weights"},
+    sentence={"c06_me": "the sparse unique-mapping representation encodes exactly the same matrix: distinct columns per row, summed weights"},
 )
+
+
+def _g_uq(rng, tier):
+    for _ in range(gens.budget(tier, 150, 2500)):
+        DP, PP, C = rng.randint(1, 3), rng.randint(1, 5), rng.randint(1, 3)
+        ss = np.array([rng.randint(1, 2) if rng.random() < 0.8 else 3 for _ in range(DP)], dtype=int)
+        T = int((ss ** 2).sum())
+        idx, sz, w = _mm_tables(rng, T, C, PP)
+        yield {"data_pixels": DP, "pix_indexes_for_sub_slim_index": idx, "pix_sizes_for_sub_slim_index": sz,
+               "pix_weights_for_sub_slim_index": w, "pix_pixels": PP, "sub_size": ss}
+
+
+CONTRACTS[_UQ_K].gen = _g_uq
+CONTRACTS[_UQ_K].nontrivial = lambda **kw: bool((kw["sub_size"] > 1).any())
+
+
+# ----------------------------------------------------------------------------------------------- Delaunay simplex lookup
+_D2 = lambda m, i: "((DPTS[%s, 0] - G[%s, 0]) * (DPTS[%s, 0] - G[%s, 0]) + (DPTS[%s, 1] - G[%s, 1]) * (DPTS[%s, 1] - G[%s, 1]))" % (m, i, m, i, m, i, m, i)
+contract(
+    MU + "pix_indexes_for_sub_slim_index_delaunay_from", props=["C06"],
+    # the simplex table is only copied (never used as an index), so it is read as a real array; callers pass integer vertex ids
+    types={"source_plane_data_grid": "real[2]", "simplex_index_for_sub_slim_index": "int[1]", "pix_indexes_for_simplex_index": "real[2]",
+           "delaunay_points": "real[2]"},
+    returns="(real[2],int[1])",
+    let={"G": "source_plane_data_grid", "sx": "simplex_index_for_sub_slim_index", "SIM": "pix_indexes_for_simplex_index", "DPTS": "delaunay_points",
+         "S": "source_plane_data_grid.shape[0]", "NS": "pix_indexes_for_simplex_index.shape[0]", "V": "delaunay_points.shape[0]"},
+    requires=["G.shape[1] == 2", "sx.shape[0] == S", "SIM.shape[1] == 3", "DPTS.shape[1] == 2", "V >= 1",
+              "forall(0, S, lambda i: sx[i] == -1 or (0 <= sx[i] and sx[i] < NS))"],
+    ensures=["result[0].shape[0] == S", "result[0].shape[1] == 3", "result[1].shape[0] == S",
+             # inside the hull: the three vertices of the simplex that contains the point
+             "forall(0, S, lambda i: implies(sx[i] != -1, result[0][i, 0] == SIM[sx[i], 0] and result[0][i, 1] == SIM[sx[i], 1] and result[0][i, 2] == SIM[sx[i], 2]))",
+             # outside the hull: the nearest vertex alone (first of the nearest ones), padded with -1
+             "forall(0, S, lambda i: implies(sx[i] == -1, result[0][i, 1] == -1 and result[0][i, 2] == -1"
+             " and result[0][i, 0] == toreal(toint(result[0][i, 0])) and 0 <= toint(result[0][i, 0]) and toint(result[0][i, 0]) < V"
+             " and forall(0, V, lambda m: " + _D2("toint(result[0][i, 0])", "i") + " <= " + _D2("m", "i")
+             + " and implies(m < toint(result[0][i, 0]), " + _D2("toint(result[0][i, 0])", "i") + " < " + _D2("m", "i") + "))))",
+             # sizes = number of entries of the row that name a vertex
+             "forall(0, S, lambda i: result[1][i] == (1 if result[0][i, 0] >= 0 else 0) + (1 if result[0][i, 1] >= 0 else 0) + (1 if result[0][i, 2] >= 0 else 0))"],
+    loops={0: {"inv": [
+        "forall(0, i, lambda q: implies(sx[q] != -1, pix_indexes_for_sub_slim_index[q, 0] == SIM[sx[q], 0] and pix_indexes_for_sub_slim_index[q, 1] == SIM[sx[q], 1]"
+        " and pix_indexes_for_sub_slim_index[q, 2] == SIM[sx[q], 2]))",
+        "forall(0, i, lambda q: implies(sx[q] == -1, pix_indexes_for_sub_slim_index[q, 1] == -1 and pix_indexes_for_sub_slim_index[q, 2] == -1"
+        " and pix_indexes_for_sub_slim_index[q, 0] == toreal(toint(pix_indexes_for_sub_slim_index[q, 0])) and 0 <= toint(pix_indexes_for_sub_slim_index[q, 0])"
+        " and toint(pix_indexes_for_sub_slim_index[q, 0]) < V"
+        " and forall(0, V, lambda m: " + _D2("toint(pix_indexes_for_sub_slim_index[q, 0])", "q") + " <= " + _D2("m", "q")
+        + " and implies(m < toint(pix_indexes_for_sub_slim_index[q, 0]), " + _D2("toint(pix_indexes_for_sub_slim_index[q, 0])", "q") + " < " + _D2("m", "q") + "))))",
+        "forall(i, S, lambda q: pix_indexes_for_sub_slim_index[q, 0] == -1 and pix_indexes_for_sub_slim_index[q, 1] == -1 and pix_indexes_for_sub_slim_index[q, 2] == -1)"]}},
+    timeout_ms=8000,
+    sentence={"forall": "a sub-pixel maps to the three vertices of the simplex containing it, or to the nearest vertex alone if outside the hull"},
+)
+
+
+def _g_pix_del(rng, tier):
+    for _ in range(gens.budget(tier, 200, 3000)):
+        V, S, NS = rng.randint(1, 6), rng.randint(0, 6), rng.randint(1, 4)
+        pts = gens.reals(rng, (V, 2), -2, 2, special=False)
+        if V > 1 and rng.random() < 0.3:
+            pts[rng.randrange(V)] = pts[rng.randrange(V)]          # duplicated vertex: ties in the nearest-vertex rule
+        G = gens.reals(rng, (S, 2), -2, 2, special=False)
+        yield {"source_plane_data_grid": G,
+               "simplex_index_for_sub_slim_index": np.array([rng.choice([-1, rng.randrange(NS)]) for _ in range(S)], dtype=int),
+               "pix_indexes_for_simplex_index": np.array([[rng.randrange(V) for _ in range(3)] for _ in range(NS)], dtype=int),
+               "delaunay_points": pts}
+
+
+_PD_K = MU + "pix_indexes_for_sub_slim_index_delaunay_from"
+CONTRACTS[_PD_K].gen = _g_pix_del
+CONTRACTS[_PD_K].nontrivial = lambda **kw: bool((kw["simplex_index_for_sub_slim_index"] == -1).any()) and bool((kw["simplex_index_for_sub_slim_index"] != -1).any())
+
+
+# ----------------------------------------------------------------------------------------------- mapped_to_source
+_MC = "sumto({n}, lambda i: (1 if M[i, {j}] > 0 else 0))"                 # number of data pixels with a positive mapping to source pixel j
+_MT = "sumto({n}, lambda i: (a[i] * M[i, {j}] if M[i, {j}] > 0 else 0))"    # their weighted values
+_MS_K = MU + "mapped_to_source_via_mapping_matrix_from"
+contract(
+    _MS_K, props=["C06"], types={"mapping_matrix": "real[2]", "array_slim": "real[1]"}, returns="real[1]",
+    let={"M": "mapping_matrix", "a": "array_slim", "N": "mapping_matrix.shape[0]", "P": "mapping_matrix.shape[1]"},
+    requires=["a.shape[0] == N"],
+    ensures=["result.shape[0] == P",
+             # mean over the data pixels that map (with positive weight) to source pixel j of value * weight; 0 if there are none
+             "forall(0, P, lambda j: result[j] == (" + _MT.format(n="N", j="j") + " / " + _MC.format(n="N", j="j") + " if " + _MC.format(n="N", j="j") + " > 0 else 0))"],
+    loops={
+        0: {"inv": ["forall(0, P, lambda j: source_pixel_count[j] == " + _MC.format(n="i", j="j") + " and mapped_to_source[j] == " + _MT.format(n="i", j="j")
+                    + " and source_pixel_count[j] >= 0 and implies(source_pixel_count[j] == 0, mapped_to_source[j] == 0))"]},
+        1: {"inv": ["forall(0, j, lambda q: source_pixel_count[q] == " + _MC.format(n="i + 1", j="q") + " and mapped_to_source[q] == " + _MT.format(n="i + 1", j="q")
+                    + " and source_pixel_count[q] >= 0 and implies(source_pixel_count[q] == 0, mapped_to_source[q] == 0))",
+                    "forall(j, P, lambda q: source_pixel_count[q] == " + _MC.format(n="i", j="q") + " and mapped_to_source[q] == " + _MT.format(n="i", j="q")
+                    + " and source_pixel_count[q] >= 0 and implies(source_pixel_count[q] == 0, mapped_to_source[q] == 0))"]},
+        2: {"inv": ["forall(0, j, lambda q: mapped_to_source[q] == (" + _MT.format(n="N", j="q") + " / " + _MC.format(n="N", j="q") + " if " + _MC.format(n="N", j="q") + " > 0 else 0))",
+                    "forall(j, P, lambda q: mapped_to_source[q] == " + _MT.format(n="N", j="q") + " and source_pixel_count[q] >= 0 and implies(source_pixel_count[q] == 0, mapped_to_source[q] == 0))"]},
+    },
+    sentence={"sumto": "each source pixel receives the mean of value*weight over the data pixels mapped to it with positive weight"},
+)
+
+
+def _g_ms(rng, tier):
+    for _ in range(gens.budget(tier, 200, 3000)):
+        n, p = rng.randint(0, 5), rng.randint(0, 4)
+        m = gens.reals(rng, (n, p), -1, 1, special=False)
+        m[m < rng.choice([-1.0, 0.0, 0.3])] = 0.0
+        yield {"mapping_matrix": m, "array_slim": gens.reals(rng, (n,), -3, 3, special=False)}
+
+
+CONTRACTS[_MS_K].gen = _g_ms
+CONTRACTS[_MS_K].nontrivial = lambda mapping_matrix, **kw: mapping_matrix.size > 0 and bool((mapping_matrix > 0).any()) and bool((mapping_matrix <= 0).any())
+
+
+# ----------------------------------------------------------------------------------------------- adaptive pixel signals (bounded)
+# Engine C only.  The kernel uses numpy fancy-index augmented assignment (`a[rows] += v`, duplicates applied once, -1 wrapping
+# to the last element), boolean-mask assignment and whole-array in-place division, none of which engine A models; the run-time
+# contract below is checked on inputs of the shape the rectangular / Delaunay mappers produce (every sub-pixel has either one
+# mapping or a full row of distinct mappings).
+_SG = ("sumto(S, lambda s: sumto(sz[s], lambda c: ((adapt_data[sl[s]] * (w[s, c] if sz[s] > 1 else 1)) if idx[s, c] == {p} else 0)))")
+_SN = "sumto(S, lambda s: sumto(sz[s], lambda c: (1 if idx[s, c] == {p} else 0)))"
+macro("c06_sigmean", ["idx", "w", "sz", "sl", "adapt_data", "S", "p"],
+      _SG.format(p="p") + " / max(" + _SN.format(p="p") + ", 1)")
+_SM = lambda p: "c06_sigmean(idx, w, sz, sl, adapt_data, S, %s)" % p
+_AS_K = MU + "adaptive_pixel_signals_from"
+contract(
+    _AS_K, props=["C06"], mode="bounded",
+    types={"pixels": "int", "pixel_weights": "real[2]", "signal_scale": "real", "pix_indexes_for_sub_slim_index": "int[2]",
+           "pix_size_for_sub_slim_index": "int[1]", "slim_index_for_sub_slim_index": "int[1]", "adapt_data": "real[1]"},
+    returns="real[1]",
+    let={"idx": "pix_indexes_for_sub_slim_index", "w": "pixel_weights", "sz": "pix_size_for_sub_slim_index", "sl": "slim_index_for_sub_slim_index",
+         "S": "pix_indexes_for_sub_slim_index.shape[0]", "C": "pix_indexes_for_sub_slim_index.shape[1]"},
+    requires=["pixels >= 1", "w.shape[0] == S", "w.shape[1] == C", "sz.shape[0] == S", "sl.shape[0] == S", "signal_scale >= 0",
+              "forall(0, S, lambda s: (sz[s] == 1 or sz[s] == C) and 0 <= sl[s] and sl[s] < adapt_data.shape[0])",
+              "forall(0, S, lambda s: forall(0, sz[s], lambda c: 0 <= idx[s, c] and idx[s, c] < pixels and w[s, c] >= 0"
+              " and forall(0, c, lambda c2: idx[s, c2] != idx[s, c])))",
+              "forall(0, adapt_data.shape[0], lambda i: adapt_data[i] >= 0)",
+              "exists(0, pixels, lambda q: " + _SM("q") + " > 0)"],
+    ensures=["result.shape[0] == pixels",
+             # mean adapt-data signal of the sub-pixels mapped to each source pixel, normalised to a maximum of one, to the power signal_scale
+             "exists(0, pixels, lambda q: forall(0, pixels, lambda p: " + _SM("p") + " <= " + _SM("q") + ")"
+             " and forall(0, pixels, lambda p: result[p] == (" + _SM("p") + " / " + _SM("q") + ") ** signal_scale))"],
+    sentence={"c06_sigmean": "pixel signals are the normalised mean adapt-data signal of the sub-pixels mapped to each source pixel"},
+)
+
+
+def _g_as(rng, tier):
+    for _ in range(gens.budget(tier, 150, 2000)):
+        P, S, C, N = rng.randint(1, 5), rng.randint(1, 6), rng.randint(1, 3), rng.randint(1, 3)
+        C = min(C, P)
+        idx = -np.ones((S, C), dtype=int)
+        w = np.zeros((S, C))
+        sz = np.zeros(S, dtype=int)
+        for s in range(S):
+            sz[s] = rng.choice([1, C])
+            idx[s, :sz[s]] = rng.sample(range(P), int(sz[s]))
+            w[s, :sz[s]] = [rng.uniform(0, 1) for _ in range(int(sz[s]))]
+        yield {"pixels": P, "pixel_weights": w, "signal_scale": rng.choice([0.0, 0.5, 1.0, 2.0]), "pix_indexes_for_sub_slim_index": idx,
+               "pix_size_for_sub_slim_index": sz, "slim_index_for_sub_slim_index": np.array([rng.randrange(N) for _ in range(S)], dtype=int),
+               "adapt_data": gens.reals(rng, (N,), 0.1, 3, special=False)}
+
+
+CONTRACTS[_AS_K].gen = _g_as
